@@ -432,7 +432,18 @@ class Env:
             cs = t.get('chunksize') or 1
             if cs > 1:
                 kw['chunksize'] = cs
-            h = meth(fn, iter(items), **kw)
+            src = iter(items)
+            if t.get('iter_raise_at') is not None:
+                def gen(k=t['iter_raise_at']):
+                    for n_, x in enumerate(items):
+                        if n_ == k:
+                            raise RuntimeError('iterable failed at %d' % k)
+                        yield x
+                    if k >= len(items):
+                        raise RuntimeError('iterable failed at %d' % k)
+                src = gen()
+                rec['iter_raises'] = True
+            h = meth(fn, src, **kw)
             if cs > 1 and h is not None:
                 rec['gen'] = h          # a generator over the chunks
                 h = pool._cache[j]
@@ -767,6 +778,8 @@ class Env:
                                % (j, typ, exp))
             else:
                 fails = [e[1][0] for e in rec['expect_items'] if not e[0]]
+                if rec.get('iter_raises'):
+                    fails.append(RuntimeError)
                 if typ not in fails and not pf and \
                         not rec['t'].get('unsendable'):
                     self._flag('map job %d failed with %r which none of its '
